@@ -9,6 +9,48 @@ import (
 
 func init() {
 	Registry["SendOrder"] = SendOrder
+	Registry["SendStream"] = SendStream
+}
+
+// SendStream (C12, C10): a server that keeps the agency streams three messages, queued one at
+// a time (each only once the send loop is waiting again, so every message is a batch of its
+// own) while the muxer has not yet taken any segment off the channel. At the end the segments
+// still carry the queued messages' bytes, in order: a later batch must not disturb a segment
+// handed over earlier.
+func SendStream() {
+	sizes := []int{sym.Param("size1"), sym.Param("size2"), sym.Param("size3")}
+	p := protocol.VerifLoopProtocol(protocol.ProtocolConfig{Name: "t", Role: role(true), StateMap: streamMap(0), InitialState: streaming})
+	sym.RunUntilBlocked(protocol.VerifStateLoopBody(p))
+	var msgs []protocol.Message
+	env := func() bool {
+		if len(msgs) == len(sizes) || protocol.VerifStopped(p) {
+			return false
+		}
+		m := sized(1, sizes[len(msgs)], "s"+string(rune('1'+len(msgs))))
+		msgs = append(msgs, m)
+		return p.SendMessage(m) == nil
+	}
+	sym.RunWithEnv(func() { protocol.VerifSendLoop(p) }, env)
+	sym.Reach("ran")
+	sym.Assert(len(msgs) == len(sizes) && protocol.VerifErrorCount(p) == 0, "streaming raises no error")
+	out := protocol.VerifSegmentsOut(p)
+	var wire []byte
+	for len(out) > 0 {
+		seg := <-out
+		wire = append(wire, seg.Payload...)
+	}
+	total := 0
+	for _, m := range msgs {
+		total += len(m.Cbor())
+	}
+	sym.Assert(len(wire) == total, "exactly the queued bytes are written")
+	off := 0
+	for _, m := range msgs {
+		c := m.Cbor()
+		n := len(c)
+		sym.Assert(wire[off] == c[0] && wire[off+n-1] == c[n-1] && wire[off+n/2] == c[n/2], "a segment handed to the muxer keeps its bytes while later batches are built")
+		off += n
+	}
 }
 
 var (
